@@ -98,8 +98,12 @@ def _definition_counts(repo) -> Dict[str, int]:
 
 
 def _simple_arg(e: ast.AST) -> bool:
+    """A name, an attribute chain, a constant, or one subscript of such by a name or constant (`self.u.value[i]`): evaluating it where the
+    parameter is read is the same as evaluating it at the call."""
     if isinstance(e, ast.Constant):
         return True
+    if isinstance(e, ast.Subscript) and isinstance(e.slice, (ast.Name, ast.Constant)):
+        e = e.value
     while isinstance(e, ast.Attribute):
         e = e.value
     return isinstance(e, ast.Name)
